@@ -383,7 +383,9 @@ func Run(reqJSON []byte) []byte {
 		res.Panic = "bad request: " + err.Error()
 	} else {
 		switch req.U {
-{{if .AllU}}		case "uint16":
+{{if .AllU}}		case "uint8":
+			res = dispatch[uint8](&req)
+		case "uint16":
 			res = dispatch[uint16](&req)
 		case "uint64":
 			res = dispatch[uint64](&req)
